@@ -86,6 +86,12 @@ def _system(draw, tier):
         A = [[x * 2.0 ** ea for x in r] for r in A]
     if eb:
         B = [[x * 2.0 ** eb for x in r] for r in B]
+    if not ea and cls != "collocation" and draw(st.integers(0, 3)) == 0:
+        # integer entries are numbers too: some rows (scaled by 8, which keeps the class) hold Python ints, the others floats
+        mask = draw(st.lists(st.booleans(), min_size=n, max_size=n))
+        if draw(st.booleans()):
+            mask[0] = True
+        A = [[int(x * 8) for x in r] if mk and all(float(x * 8).is_integer() for x in r) else r for r, mk in zip(A, mask)]
     return {"A": A, "B": B, "cls": cls, "scale": [ea, eb]}
 
 
@@ -261,6 +267,7 @@ def check_single(case, ctx):
     n = len(A)
     ctx.label("class:" + case["cls"])
     ctx.label("scaled-matrix", bool(case.get("scale", [0, 0])[0]))
+    ctx.label("rows-of-python-ints", any(all(isinstance(x, int) for x in r) for r in A))
     swap = n >= 2 and max(range(n), key=lambda i: abs(A[i][0])) != 0
     ctx.nt(swap, "row-swap-needed")
     ctx.nt(n >= 4, "n>=4")
@@ -277,8 +284,9 @@ def check_single(case, ctx):
         ctx.check(is_finite_matrix(X), "lu_solve-not-total", "lu_solve returned %r on a %s matrix" % (X, case["cls"]))
     if case["cls"] == "sdd" and D != 0:
         # answers do not depend on earlier calls: the same list object, edited in place, is solved again
-        work = [list(r) for r in A]
-        linalg.lu_solve(work, B)
+        work = [[x * 2.0 for x in r] for r in A]          # a matrix the library has not seen yet (still diagonally dominant)
+        X1 = linalg.lu_solve(work, B)
+        residual_ok(ctx, "lu_solve-residual", "lu_solve on twice the matrix", work, X1, B, exact_lu(work))
         for j in range(n):
             work[0][j] = work[0][j] * 2.0
         work[n - 1][n - 1] = work[n - 1][n - 1] * 4.0          # still strictly diagonally dominant
@@ -341,13 +349,18 @@ def _helper_cases(draw, tier):
             "M1": [[draw(st.integers(-16, 16)) / 4.0 for _ in range(m)] for _ in range(n)],
             "M2": [[draw(st.integers(-16, 16)) / 4.0 for _ in range(k)] for _ in range(m)],
             "vec": [draw(st.integers(-16, 16)) / 4.0 for _ in range(m)],
-            "k": draw(st.integers(0, 40)), "i": draw(st.integers(0, 44)),
+            "k": draw(st.integers(0, 40)), "i": draw(st.integers(0, 44)), "vexp": draw(st.sampled_from([0, 0, 0, -66, -40, 40])),
             "lin": [draw(st.integers(-64, 64)) / 8.0, draw(st.integers(1, 64)) / 8.0 * draw(st.sampled_from([1.0, 1.0, -1.0])), draw(st.integers(2, 40))]}
 
 
 def check_helpers(case, ctx):
     a, b, c = case["a"], case["b"], case["c"]
+    if case.get("vexp"):
+        # vectors of very small / large magnitude (exact power-of-two scaling): the definitions are scale-free
+        a, b = [x * 2.0 ** case["vexp"] for x in a], [x * 2.0 ** case["vexp"] for x in b]
+        ctx.label("tiny-or-huge-vectors")
     Fa, Fb = [F(x) for x in a], [F(x) for x in b]
+    unit = 2.0 ** case.get("vexp", 0)
     ctx.nt(len(a) == 3, "3-D")
     ctx.nt(case["i"] > case["k"] or case["k"] >= 23, "binomial-edge")
     dot = linalg.vector_dot(a, b)
@@ -357,20 +370,20 @@ def check_helpers(case, ctx):
     want = [A3[1] * B3[2] - A3[2] * B3[1], A3[2] * B3[0] - A3[0] * B3[2], A3[0] * B3[1] - A3[1] * B3[0]]
     ctx.check(len(cr) == 3 and all(F(x) == y for x, y in zip(cr, want)), "vector_cross", "vector_cross(%r, %r) = %r, expected %r" % (a, b, cr, ref.fl(want)))
     mag = linalg.vector_magnitude(a)
-    ctx.check(abs(mag - math.sqrt(float(sum(x * x for x in Fa)))) <= 1e-12 * (1 + mag), "vector_magnitude", "vector_magnitude(%r) = %r" % (a, mag))
+    ctx.check(abs(mag - ref.fsqrt(sum(x * x for x in Fa))) <= 1e-12 * (unit + mag), "vector_magnitude", "vector_magnitude(%r) = %r" % (a, mag))
     if any(a):
         un = linalg.vector_normalize(a)
         ctx.check(abs(math.sqrt(sum(x * x for x in un)) - 1.0) <= 1e-12, "vector_normalize-unit", "vector_normalize(%r) = %r is not a unit vector" % (a, un))
-        ctx.check(all(abs(x * mag - y) <= 1e-12 * (1 + abs(y)) for x, y in zip(un, a)), "vector_normalize-direction", "vector_normalize(%r) = %r" % (a, un))
+        ctx.check(all(abs(x * mag - y) <= 1e-12 * (unit + abs(y)) for x, y in zip(un, a)), "vector_normalize-direction", "vector_normalize(%r) = %r" % (a, un))
     ctx.check(linalg.vector_generate(a, b) == [float(y - x) for x, y in zip(Fa, Fb)], "vector_generate", "vector_generate(%r, %r) = %r" % (a, b, linalg.vector_generate(a, b)))
     ctx.check(linalg.vector_sum(a, b, c) == [float(x + F(c) * y) for x, y in zip(Fa, Fb)], "vector_sum", "vector_sum(%r, %r, %r) = %r" % (a, b, c, linalg.vector_sum(a, b, c)))
     ctx.check(linalg.vector_multiply(a, c) == [float(x * F(c)) for x in Fa], "vector_multiply", "vector_multiply(%r, %r)" % (a, c))
     mean = linalg.vector_mean(a, b, a)
-    ctx.check(all(abs(F(x) - (2 * p + q) / 3) <= F(1, 10 ** 12) for x, p, q in zip(mean, Fa, Fb)), "vector_mean", "vector_mean(a, b, a) = %r" % (mean,))
+    ctx.check(all(abs(F(x) - (2 * p + q) / 3) <= F(1, 10 ** 12) * F(unit) for x, p, q in zip(mean, Fa, Fb)), "vector_mean", "vector_mean(a, b, a) = %r" % (mean,))
     dist = linalg.point_distance(a, b)
-    ctx.check(abs(dist - math.sqrt(float(sum((x - y) ** 2 for x, y in zip(Fa, Fb))))) <= 1e-12 * (1 + dist), "point_distance", "point_distance(%r, %r) = %r" % (a, b, dist))
+    ctx.check(abs(dist - ref.fsqrt(sum((x - y) ** 2 for x, y in zip(Fa, Fb)))) <= 1e-12 * (unit + dist), "point_distance", "point_distance(%r, %r) = %r" % (a, b, dist))
     mid = linalg.point_mid(a, b)
-    ctx.check(all(abs(F(x) - (p + q) / 2) <= F(1, 10 ** 12) for x, p, q in zip(mid, Fa, Fb)), "point_mid", "point_mid(%r, %r) = %r" % (a, b, mid))
+    ctx.check(all(abs(F(x) - (p + q) / 2) <= F(1, 10 ** 12) * F(unit) for x, p, q in zip(mid, Fa, Fb)), "point_mid", "point_mid(%r, %r) = %r" % (a, b, mid))
     M1, M2, vec = case["M1"], case["M2"], case["vec"]
     T = linalg.matrix_transpose(M1)
     ctx.check([list(r) for r in T] == [[M1[i][j] for i in range(len(M1))] for j in range(len(M1[0]))], "matrix_transpose", "matrix_transpose(%r) = %r" % (M1, T))
